@@ -332,9 +332,12 @@ def acceptance(repo, run):
         if not loops:
             raise AnalysisError("%s: iteration loop not found" % q)
         lp = loops[-1]
-        accs = [s2 for s2 in ast.walk(lp) if isinstance(s2, ast.Assign) and src(s2.targets[0]) == "x" and src(s2.value) == trial]
+        # trial points: locals bound in the loop to `x + <step>` (whatever they are called)
+        trials = {s2.targets[0].id for s2 in ast.walk(lp) if isinstance(s2, ast.Assign) and isinstance(s2.targets[0], ast.Name) and isinstance(s2.value, ast.BinOp)
+                  and isinstance(s2.value.op, ast.Add) and isinstance(s2.value.left, ast.Name) and s2.value.left.id == "x"} | {trial}
+        accs = [s2 for s2 in ast.walk(lp) if isinstance(s2, ast.Assign) and src(s2.targets[0]) == "x" and src(s2.value) in trials]
         if not accs:
-            raise AnalysisError("%s: acceptance of the trial point (`x = %s`) not found" % (q, trial))
+            raise AnalysisError("%s: acceptance of the trial point (`x = <x + step>`) not found" % (q,))
         acc_st = accs[-1]
         top = acc_st
         while top._parent is not lp:
